@@ -261,9 +261,11 @@ pub(in crate::primitives) mod verif_c06l {
 mod verif_c06c {
     use super::*;
     use crate::{
+        geometry::Size,
         pixelcolor::Gray8,
         primitives::{primitive_style::verif_c06s::any_style, ContainsPoint, OffsetOutline, Primitive, StrokeAlignment},
         verif_probe::{any_point, any_rect, everything, sp, ProbeNative, ProbeState},
+        Drawable,
     };
 
     fn any_circle(max_d: u32) -> Circle {
@@ -300,6 +302,52 @@ mod verif_c06c {
         assert!(styled.bounding_box() == sb);
         kani::cover!(fa.diameter == 0);
         kani::cover!(fa.diameter > 0 && i > 0 && o > 0);
+    }
+
+    /// From the constructor (class P): the whole draw() of a tiny circle on a native probe, one harness
+    /// per match arm of draw_styled (colour presence concrete, so only that arm is reachable): the pixel
+    /// map is the statement's colour function of fill_area()/stroke_area(). Decides which scanline
+    /// generator and which area each arm uses.
+    fn draw_probe_tiny(fill: bool, stroke: bool) {
+        let d: u32 = kani::any();
+        kani::assume(d <= 3);
+        let c = Circle::new(Point::new(0, 0), d);
+        let mut style = any_style(2);
+        style.fill_color = if fill { Some(Gray8::new(50)) } else { None };
+        style.stroke_color = if stroke { Some(Gray8::new(200)) } else { None };
+        if stroke {
+            kani::assume(style.stroke_width >= 1);
+        }
+        let styled = c.into_styled(style);
+        let (fa, sa) = (styled.fill_area(), styled.stroke_area());
+        kani::assume(sa.diameter <= 4);
+        let q = any_point(16);
+        let bb = styled.bounding_box();
+        let mut t = ProbeNative::<Gray8>(ProbeState::new(q, Rectangle::new(Point::new(-8, -8), Size::new(16, 16)), bb));
+        styled.draw(&mut t).unwrap();
+        let expected = if fa.contains(q) { style.fill_color } else if sa.contains(q) && style.stroke_width > 0 { style.stroke_color } else { None };
+        assert!(t.0.last == expected);
+        assert!(!t.0.escaped);
+        kani::cover!(expected.is_some());
+        kani::cover!(sa.contains(q) && !fa.contains(q) && style.stroke_width > 0);
+    }
+    //@harness prop=C06,C02 kind=bounded tier=quick class=P bound="fill only (stroke colour absent, stroke width 0..=2, three alignments); diameter <= 3, position (0,0)" timeout=900 unwindset="try_fold=6;draw_styled=6" fns=src/primitives/circle/styled.rs::Circle::draw_styled
+    #[kani::proof]
+    #[kani::unwind(7)]
+    fn c06_circle_draw_probe_fill_only() {
+        draw_probe_tiny(true, false);
+    }
+    //@harness prop=C06,C02 kind=bounded tier=quick class=P bound="stroke only; diameter <= 3, stroke 1..=2, position (0,0)" timeout=1200 unwindset="try_fold=6;draw_styled=6"
+    #[kani::proof]
+    #[kani::unwind(7)]
+    fn c06_circle_draw_probe_stroke_only() {
+        draw_probe_tiny(false, true);
+    }
+    //@harness prop=C06,C02 kind=bounded tier=quick class=P bound="stroke and fill; diameter <= 3, stroke 1..=2, position (0,0)" timeout=1200 unwindset="try_fold=6;draw_styled=6"
+    #[kani::proof]
+    #[kani::unwind(7)]
+    fn c06_circle_draw_probe_stroke_and_fill() {
+        draw_probe_tiny(true, true);
     }
 
     /// Styled row contract of the real StyledScanlines::next from an arbitrary row: the stroke range is
@@ -344,6 +392,58 @@ mod verif_c06c {
 impl Scanlines {
     pub(in crate::primitives) fn verif_set_row(&mut self, y: i32) {
         self.rows.start = y;
+    }
+}
+//@end
+
+// ------------------------------------------------------------------ Ellipse (whole draw, tiny, per match arm)
+//@append src/primitives/ellipse/styled.rs
+#[cfg(kani)]
+#[allow(missing_docs, trivial_casts, trivial_numeric_casts, unused_qualifications, dead_code, unused)]
+mod verif_c06e {
+    use super::*;
+    use crate::{
+        geometry::Size,
+        pixelcolor::Gray8,
+        primitives::{primitive_style::verif_c06s::any_style, ContainsPoint, Primitive},
+        verif_probe::{any_point, sp, ProbeNative, ProbeState},
+        Drawable,
+    };
+
+    fn draw_probe_tiny(fill: bool, stroke: bool) {
+        let (w, h): (u32, u32) = (kani::any(), kani::any());
+        kani::assume(w <= 3 && h <= 3);
+        let e = Ellipse::new(Point::new(0, 0), Size::new(w, h));
+        let mut style = any_style(1);
+        style.fill_color = if fill { Some(Gray8::new(50)) } else { None };
+        style.stroke_color = if stroke { Some(Gray8::new(200)) } else { None };
+        if stroke {
+            kani::assume(style.stroke_width >= 1);
+        }
+        let styled = e.into_styled(style);
+        let (fa, sa) = (styled.fill_area(), styled.stroke_area());
+        kani::assume(sa.size.width <= 4 && sa.size.height <= 4);
+        let q = any_point(16);
+        let bb = styled.bounding_box();
+        let mut t = ProbeNative::<Gray8>(ProbeState::new(q, Rectangle::new(Point::new(-8, -8), Size::new(16, 16)), bb));
+        styled.draw(&mut t).unwrap();
+        let expected = if fa.contains(q) { style.fill_color } else if sa.contains(q) && style.stroke_width > 0 { style.stroke_color } else { None };
+        assert!(t.0.last == expected);
+        assert!(!t.0.escaped);
+        kani::cover!(expected.is_some());
+    }
+    /// Ellipse::draw_styled, fill-only arm (which scanline generator over which area)
+    //@harness prop=C06,C02 kind=bounded tier=thorough class=P bound="ellipse fill only; size <= 3x3, stroke width 0..=1, position (0,0)" timeout=3000 unwindset="try_fold=6;draw_styled=6;ellipse::points::Scanlines as core::iter::Iterator>::next=6" fns=src/primitives/ellipse/styled.rs::Ellipse::draw_styled
+    #[kani::proof]
+    #[kani::unwind(7)]
+    fn c06_ellipse_draw_probe_fill_only() {
+        draw_probe_tiny(true, false);
+    }
+    //@harness prop=C06,C02 kind=bounded tier=thorough class=P bound="ellipse stroke and fill; size <= 3x3, stroke width 1, position (0,0)" timeout=3000 unwindset="try_fold=6;draw_styled=6;ellipse::points::Scanlines as core::iter::Iterator>::next=6"
+    #[kani::proof]
+    #[kani::unwind(7)]
+    fn c06_ellipse_draw_probe_stroke_and_fill() {
+        draw_probe_tiny(true, true);
     }
 }
 //@end
